@@ -286,6 +286,11 @@ def main():
                 raise RuntimeError("model driver does not build: " + lean.get("driver_messages", "")[-800:])
             missing = [e for e in entries if e not in lean.get("report", {}).get("signatures", {})]
             corr_res = corr.run([e for e in entries if e not in missing], ncorr, seed, maxn=60 if tier == "quick" else 600)
+            if getattr(mod, "correspond_extra", None):
+                extra = mod.correspond_extra(seed, tier)
+                corr_res["evaluations"] += extra["evaluations"]
+                corr_res["disagreements"] += extra["disagreements"]
+                corr_res["extra"] = dict(distribution=extra.get("distribution"), worst_ratio=extra.get("worst_ratio"))
             if missing:
                 corr_res["disagreements"].insert(0, dict(id="(translator)", kind="refused", entries=missing,
                                                          reasons={e: lean["report"]["functions"].get(e) for e in missing}))
